@@ -348,8 +348,8 @@ each defined by its own recursion on fuel with the layers below it as fixed func
   recomputed from all callees and — `f1q` — all fingerprints are refreshed), recompute
   (`execute_query`: a firewall / projection whose value changes propagates dirtiness upward, in the
   same epoch, and gets a pending backward projection).  Calls go to lower keys only.
-* `queryB` — the `BackwardProjectionPropagation` caller: an unverified projection is always
-  re-executed (pedantically); afterwards, if it has a pending backward projection, the projections
+* `queryB` — the `BackwardProjectionPropagation` caller: an unverified projection is repaired like
+  for a pedantic query caller (since the F13 repair; before it: always re-executed); afterwards, if it has a pending backward projection, the projections
   directly above it are requested the same way (`backProject`).  Calls go to higher keys only.
 * `queryF` — the `RepairFirewall` caller: `repair_transitive_firewall_callees` of the firewall
   (lower keys, same caller), then the repair proper as a non-pedantic query caller would do it,
@@ -644,15 +644,9 @@ def backProject (qb : Q) (p : Program) (k : Key) (s : St) : Except Err St :=
 def queryB (p : Program) : Nat → Q
   | 0, _, _ => .error .outOfFuel
   | fuel + 1, k, s =>
-    let r : Except Err (Val × St) :=
-      match s.nodes k with
-      | none => queryQ p (fuelFor p) true k s
-      | some n =>
-        if n.lastVerified = s.epoch then .ok (n.value, s)
-        else
-          match p[k]? with
-          | none => .error (.badKey k)
-          | some d => execute (queryQ p (fuelFor p) true) k d s
+    -- since the F13 repair the projection is REPAIRED like for a pedantic query caller (every recorded
+    -- callee repaired and compared), not re-executed unconditionally
+    let r : Except Err (Val × St) := queryQ p (fuelFor p) true k s
     match r with
     | .error e => .error e
     | .ok (v, s1) =>
